@@ -261,9 +261,38 @@ def _run_res_case(workdir, files, sel, use_filenames, merge, transpose):
     return msgs, "table-merged" if merge else "table"
 
 
+def iterables_part(files):
+    """the bridge function takes any iterable of result files"""
+    from evo.tools import pandas_bridge
+    acc = Acc()
+    paths = [f[0] for f in files]
+    for merge in (False, True):
+        base = pandas_bridge.load_results_as_dataframe(list(paths[:2]),
+                                                       merge=merge)
+        for name, make in (("tuple", tuple), ("iterator", iter),
+                           ("generator", lambda p: (x for x in p))):
+            acc.count("evaluations")
+            acc.count("transitions")
+            case = {"iterable": name, "merge": merge}
+            try:
+                df = pandas_bridge.load_results_as_dataframe(
+                    make(paths[:2]), merge=merge)
+                ok = df.shape == base.shape and df.to_json() == base.to_json()
+                msg = "table from a %s of result files differs from the " \
+                    "table of the same list (shape %s vs %s)" % (
+                        name, df.shape, base.shape)
+            except Exception as e:
+                ok, msg = False, "%s of result files raised %s: %s" % (
+                    name, type(e).__name__, e)
+            if not ok:
+                acc.violation("iterables", msg, case, {"kind": "iterables"})
+    return acc
+
+
 def res_part(ctx):
     acc = Acc()
     files = _make_result_files(ctx.workdir)
+    acc.merge(iterables_part(files))
     sels = [s for n in (1, 2, 3)
             for s in itertools.permutations(range(3), n)]
     for sel in sels:
@@ -325,6 +354,10 @@ def replay(part, case):
                  if t["stats"] == STAT_SETS[0] and len(t["skeys"]) == 2
                  and "c" not in [k for k, _ in t["arrays"]]]
         return judge([types[i] for i in case["chain"]])[0]
+    if part == "iterables":
+        files = _make_result_files(os.getcwd())
+        return [v["msg"] for v in iterables_part(files).violations
+                if v["case"] == case]
     if part == "evo_res":
         wd = os.getcwd()
         files = _make_result_files(wd)
